@@ -231,8 +231,13 @@ func main() {
 		}
 	}
 	switch prop {
-	case "C04", "C05", "C17":
+	case "C04", "C05":
 		streamMarshal(r, cfs, bs)
+	case "C17":
+		streamMarshal(r, cfs, bs)
+		streamUnmarshal(r.Fork("unmarshal"), cfs, bs)
+	case "C06", "C07", "C08", "C10":
+		streamUnmarshal(r, cfs, bs)
 	case "C16":
 		streamGenerator(r, cfs, bs, *bindir, *genRoot)
 	default:
@@ -329,7 +334,7 @@ func streamMarshal(r *hx.Rng, cfs []*cfile, bs *builtSet) {
 					if err := (proto.UnmarshalOptions{AllowPartial: true}).Unmarshal(hx.UnB(m), ref); err != nil {
 						fail("the reference runtime cannot parse the generated Marshal output", cs, "parsable", err.Error(), "ref-reject")
 					} else if got := pbrender.Message(ref); got != p.text {
-						fail("reference parse of the generated Marshal output differs from the original message", cs, p.text, got, "ref-differs")
+						fail("reference parse of the generated Marshal output differs from the original message", cs, p.text, got, classify("ref-differs", p.md, p.wire))
 					}
 				} else if m == "panic" || !missingReq {
 					fail("generated Marshal failed", cs, "bytes", m, "sm-error")
